@@ -1,5 +1,6 @@
 (* C02 — RFC 9535 filter expressions select exactly the nodes the RFC makes true.
    Statements only; proofs live in proofs/EvalProofs.v. *)
+From JP Require PyStr Regex RegexSem RegexText RegexProofs RegexParseProofs.
 From JP Require Import Base Json Syntax Eval Rfc9535 Rfc9535Typing EvalCorr EvalProofs.
 
 (* [repr] (a specification operand and its run-time forms) and [node_of] are defined in
@@ -51,6 +52,37 @@ Theorem C02_exists :
                map node_of ns = segs_nodes re_full re_search (e_keys E) p root ctx [([], cur)].
 Proof. exact EvalProofs.exists_test. Qed.
 Print Assumptions C02_exists.
+
+(* ---- match / search: the regular-expression engine of the model (rt/Regex.v: pattern parser and
+   Brzozowski-derivative matcher, the oracle the extracted model runs) computes the denotational
+   semantics of its dialect (spec/RegexSem.v `matches`: empty, character sets, concatenation,
+   alternation, star - no anchors, back-references or look-around: I-Regexp matching).  match is a
+   match of the WHOLE string, search a match of some substring. *)
+Theorem C02_regex_match :
+  forall pattern icase dotall r rest s,
+    Regex.parse_regex dotall pattern = Regex.POk r rest ->
+    icase && (negb (PyStr.is_ascii pattern) || negb (PyStr.is_ascii s)) = false ->
+    (Regex.regex_fullmatch pattern icase dotall s = Some (Some true) <-> RegexSem.matches icase r s) /\
+    (Regex.regex_fullmatch pattern icase dotall s = Some (Some false) <-> ~ RegexSem.matches icase r s).
+Proof. exact RegexProofs.regex_fullmatch_spec. Qed.
+Print Assumptions C02_regex_match.
+
+Theorem C02_regex_search :
+  forall pattern r rest s,
+    Regex.parse_regex false pattern = Regex.POk r rest ->
+    (Regex.regex_search pattern s = Some (Some true) <-> RegexSem.matches_somewhere false r s) /\
+    (Regex.regex_search pattern s = Some (Some false) <-> ~ RegexSem.matches_somewhere false r s).
+Proof. exact RegexProofs.regex_search_spec. Qed.
+Print Assumptions C02_regex_search.
+
+(* the pattern text of the dialect (spec/RegexText.v) parses to a regex equivalent to its meaning *)
+Theorem C02_regex_text :
+  forall icase dotall x,
+    RegexText.valid_alt x = true ->
+    exists r', Regex.parse_regex dotall (RegexText.regex_text x) = Regex.POk r' [] /\
+               RegexSem.re_equiv icase r' (RegexText.alt_re dotall x).
+Proof. exact RegexParseProofs.regex_text_parses. Qed.
+Print Assumptions C02_regex_text.
 
 Example C02_example :
   (* $[?@.a == $.k && !(@.b < 2)]  on  {"k": 1, "x": {"a": 1, "b": 5}, "y": {"a": true, "b": 5}} *)
